@@ -95,6 +95,13 @@ func genC10(r *mrand.Rand, id string) c10Case {
 	file := func() gen.FileSpec {
 		f := gen.FileSpec{Name: gen.Pick(r, c10FileNames), Enc: gen.Pick(r, []string{"", "", "base64"})}
 		f.Content = gen.Content(r, gen.Pick(r, []string{"ascii", "binary", "binary-nul", "b64-edge", "crlf-lines", "utf8", "empty"}))
+		if r.Intn(4) == 0 {
+			// a Content-ID of the caller's choosing, on embeds and on attachments alike
+			f.CID = gen.Pick(r, []string{"<cid-1@example.com>", "<image001>", "<a.b.c@verif>", "<report@example.com>"})
+		}
+		if r.Intn(6) == 0 {
+			f.Desc = gen.Pick(r, []string{"a description", "Beschreibung mit Ümlaut"})
+		}
 		return f
 	}
 	for i := 0; i < ne; i++ {
